@@ -26,7 +26,7 @@ from .. import tlc
 from ..core import MachineryError, pmap
 
 FEATS = ['assign_parindent', 'assign_tolerance', 'assign_LTleft', 'use_parindent', 'use_tolerance', 'use_LTleft', 'any', 'math', 'pmath', 'list',
-         'listinput', 'mathinput', 'section', 'printindex']
+         'listinput', 'mathinput', 'section', 'printindex', 'eqstar', 'eqarr', 'defcolor', 'usecolor']
 ENDINGS = ['end', 'mathopen', 'listopen', 'boom', 'ifraise']
 
 CFG = '''CONSTANTS
@@ -48,7 +48,7 @@ INVARIANT AssignmentsRun
 
 def source(doc, extra=''):
     cls, feats, ending = doc['cls'], doc['feats'] or [], doc['ending']
-    out = ['\\documentclass{%s}\n\\usepackage{ifthen}\\usepackage{makeidx}\\usepackage{longtable}\\makeindex\n\\newwrite\\vw\n%s\\begin{document}\n' % (cls, extra)]
+    out = ['\\documentclass{%s}\n\\usepackage{ifthen}\\usepackage{makeidx}\\usepackage{longtable}\\usepackage{color}\\makeindex\n\\newwrite\\vw\n%s\\begin{document}\n' % (cls, extra)]
     if cls == 'book':
         out.append('\\chapter{Ch}\n')
     out.append('start w\\index{key}\n\n')
@@ -61,6 +61,14 @@ def source(doc, extra=''):
             out.append('\\LTleft=7pt t%d\n\n' % i)
         elif f == 'use_LTleft':
             out.append('t%d\\hskip\\LTleft t\n\n' % i)
+        elif f == 'eqstar':
+            out.append('\\begin{eqnarray*}a&=&b\\\\ c&=&d\\end{eqnarray*}\n\n')
+        elif f == 'eqarr':
+            out.append('\\begin{eqnarray}a&=&b\\label{ea%d}\\\\ c&=&d\\label{eb%d}\\end{eqnarray}\n\n' % (i, i))
+        elif f == 'defcolor':
+            out.append('\\definecolor{red}{rgb}{0,0,1}t%d\n\n' % i)
+        elif f == 'usecolor':
+            out.append('t \\textcolor{red}{Cq%dq} t\n\n' % i)
         elif f == 'listinput':
             out.append('\\begin{enumerate}\\item Lq%dq \\input{vinc} t\\end{enumerate}\n\n' % i)
         elif f == 'mathinput':
@@ -208,7 +216,7 @@ def observe(doc, d):
         name = getattr(n, 'nodeName', None)
         if n.nodeType == n.TEXT_NODE:
             return
-        if name in ('parindent', 'tolerance', 'LTleft', 'hskip', 'vskip', 'kern', 'printindex', 'section'):
+        if name in ('parindent', 'tolerance', 'LTleft', 'hskip', 'vskip', 'kern', 'printindex', 'section', 'textcolor', 'eqnarray'):
             nodes.setdefault(name, []).append(n)
         # text children may be single characters where normalize() did not run: look at them joined
         joined = ''.join(str(c) if c.nodeType == c.TEXT_NODE else ' ' for c in n.childNodes)
@@ -239,8 +247,16 @@ def observe(doc, d):
             v1 = {'parindent': '3.0pt', 'tolerance': str(dimen('777sp').source), 'LTleft': '7.0pt'}[reg]
             vi = {'parindent': INIT['parindent'], 'tolerance': str(dimen(INIT['tolerance'] + 'sp').source), 'LTleft': INIT['LTleft']}[reg]
             obs.append('init' if v == vi else ('v1' if v == v1 else 'other:' + v))
-        elif f == 'any':
+        elif f in ('any', 'eqstar', 'defcolor'):
             pass
+        elif f == 'eqarr':
+            n = nth('eqnarray')
+            rows = [r for r in (n.childNodes if n is not None else []) if getattr(r, 'nodeName', '') == 'ArrayRow']
+            obs.append('lost' if n is None else 'rows%d' % sum(1 for r in rows if r.ref is not None))
+        elif f == 'usecolor':
+            n = nth('textcolor')
+            c = (n.style.get('color') if n is not None else None)
+            obs.append('lost' if n is None else ('init' if c == '#FF0000' else ('v1' if c == '#0000FF' else 'other:%s' % c)))
         elif f == 'math':
             a = nodes.get(('M', i))
             obs.append('lost' if a is None else ('math' if 'math' in a else 'text'))
@@ -465,9 +481,9 @@ def run(chk):
                        'observations are not taken from documents whose processing was aborted by an exception (their tree is incomplete)',
                        'class attributes named @arguments, @locals, @hasgenid are caches of the class definition and are not compared']
     setup()
-    # 2 documents x <= 2 features is 4.5M histories; 3 features x 2 documents would be 873M, so thorough adds 3 documents of one feature
+    # 2 documents x <= 2 features is 11.8M histories (thorough); 3 features x 2 documents would be far more, so thorough adds 3 documents of one feature
     # and single documents of 3 features instead
-    for mf, md in ([(2, 2)] if tier == 'quick' else [(2, 2), (1, 3), (3, 1)]):
+    for mf, md in ([(1, 2), (2, 1)] if tier == 'quick' else [(2, 2), (1, 3), (3, 1)]):
         res = tlc.run('Isolation', cfg_text=CFG % ((mf, md) + flags + ('',)), timeout=3400, heap='12g', want_beh=False)
         chk.add_tlc(res, 'isolation(MaxFeats=%d,MaxDocs=%d)' % (mf, md))
         if not res.ok:
@@ -495,7 +511,7 @@ def run(chk):
         hist = b['hist']
         if 'machinery' in r:
             raise MachineryError('C17: history %s: %s' % (describe(hist), r['machinery']))
-        touching = any(d['ending'] != 'end' or any(f in ('assign_parindent', 'assign_tolerance', 'assign_LTleft', 'any', 'listinput', 'mathinput') for f in (d['feats'] or [])) or d['cls'] == 'article' for d in hist[:-1])
+        touching = any(d['ending'] != 'end' or any(f in ('assign_parindent', 'assign_tolerance', 'assign_LTleft', 'any', 'listinput', 'mathinput', 'eqstar', 'defcolor') for f in (d['feats'] or [])) or d['cls'] == 'article' for d in hist[:-1])
         chk.case(hist, touching, {'history': describe(hist), 'last': source(hist[-1])[:300]} if len(hist) >= 2 and touching and len(chk.samples) < 4 else None)
         chk.traces += 1
         last = hist[-1]
